@@ -153,7 +153,7 @@ theorem good_exec (m : M) (op : Op) (g : Good roots m) (hwf : wfOp roots op) :
       have hp : Pending m.cores p := hst
       have o2 := own_fulfilAndWalk (v := v) g.own (g.own.rootsLt p hwf) hp (root_not_doomed g.own.c hwf)
         (fun c0 i0 r0 h0 hu0 hc0 => absurd hc0 (g.own.c.noHolder p hwf c0 i0 r0 h0 hu0))
-      have e2 := ext_fulfilAndWalk m p v hp
+      have e2 := ext_fulfilAndWalk m p v hp (noSpent_of_not_doomed g.own.c hp (root_not_doomed g.own.c hwf))
       exact good_settleDown ⟨o2, logOK_ext e2 g.log⟩ e2
     · exact ⟨g, Ext.refl _⟩
   | reject p e =>
@@ -163,7 +163,7 @@ theorem good_exec (m : M) (op : Op) (g : Good roots m) (hwf : wfOp roots op) :
       have hp : Pending m.cores p := hst
       have o2 := own_rejectAndWalk (e := e) g.own (g.own.rootsLt p hwf) hp
         (fun c0 i0 r0 h0 hu0 hc0 => absurd hc0 (g.own.c.noHolder p hwf c0 i0 r0 h0 hu0))
-      have e2 := ext_rejectAndWalk m p e hp
+      have e2 := ext_rejectAndWalk m p e hp (noSpent_of_not_doomed g.own.c hp (root_not_doomed g.own.c hwf))
       exact good_settleDown ⟨o2, logOK_ext e2 g.log⟩ e2
     · exact ⟨g, Ext.refl _⟩
   | whenAll ps =>
